@@ -255,6 +255,11 @@ func (e *Engine) staticCall(f *frame, st *State, fn *ssa.Function, args []Val, b
 		e.havocFamilies(st, ms.list())
 		return e.havocResult(st, fn.Name(), rt)
 	}
+	if pp := pkgPathOf(fn); strings.HasPrefix(pp, "github.com/rs/zerolog") {
+		// logging: assumed to have no effect on program state; results are opaque handles
+		e.note("zerolog logging calls are assumed to have no effect on program state")
+		return e.havocResult(st, "log", rt)
+	}
 	// unmodelled external function
 	e.note("external function " + name + " is not modelled: results unconstrained, memory reachable through slice/pointer arguments havocked")
 	var fams []string
